@@ -1,9 +1,107 @@
 import JominiModel.Driver.Util
+import JominiModel.Model.TextTape
+/-
+Ops of C01 (text tape), the text half of C06 (`wftext`) and the text-tape part of C19 (`tcut`).
+Formats mirror harness/src/show.rs (`text_tape`, `text_tape_offsets`) and harness/src/props/c01.rs.
+-/
 namespace Jomini.Driver.C01
-open Jomini Jomini.Driver
+open Jomini Jomini.Driver Jomini.TextTape
 
-/-- ops of property C01 (none yet). -/
+def opName : Op → String
+  | .lt => "lt" | .le => "le" | .gt => "gt" | .ge => "ge"
+  | .ne => "ne" | .exact => "exact" | .eq => "eq" | .exists_ => "exists"
+
+def flag (m : Bool) : String := if m then "m" else ""
+
+/-- `n` = length of the input when offsets are wanted. -/
+def showTok (offsets : Option Nat) (t : Tok) : String :=
+  let sc (k : String) (s : Slice) : String :=
+    match offsets with
+    | none => s!"{k}:{toHex s.bytes}"
+    | some n => s!"{k}@{s.off n}+{s.bytes.length}"
+  match t with
+  | .array e m => s!"A{flag m}{e}"
+  | .object e m => s!"O{flag m}{e}"
+  | .mixedContainer => "M"
+  | .unquoted s => sc "U" s
+  | .quoted s => sc "Q" s
+  | .parameter s => sc "P" s
+  | .undefParameter s => sc "N" s
+  | .operator o => s!"Op:{opName o}"
+  | .endTok i => s!"E{i}"
+  | .header s => sc "H" s
+
+def showTape (offsets : Option Nat) (ts : List Tok) : String :=
+  if ts.isEmpty then "-" else ",".intercalate (ts.map (showTok offsets))
+
+def errName : Err → String
+  | .eof => "err:eof" | .syntax => "err:syntax" | .stackEmpty => "err:stack"
+
+def showRes (offsets : Option Nat) : Res → String
+  | .ok t b => s!"ok {showTape offsets t} bom:{if b then 1 else 0}"
+  | .err e => errName e
+  | .panic => "panic"
+  | .outOfFuel => "out-of-fuel"
+
+def tapeLine (d : Bytes) (offsets : Bool) : String :=
+  showRes (if offsets then some d.length else none) (parse d)
+
+/-- content of a result without the BOM flag (the flag belongs to the layout). -/
+def content : Res → Option (List (Tok))
+  | .ok t _ => some (t.map fun
+      | .unquoted s => .unquoted ⟨0, s.bytes⟩
+      | .quoted s => .quoted ⟨0, s.bytes⟩
+      | .parameter s => .parameter ⟨0, s.bytes⟩
+      | .undefParameter s => .undefParameter ⟨0, s.bytes⟩
+      | .header s => .header ⟨0, s.bytes⟩
+      | t => t)
+  | _ => none
+
+def pairStr : Option (Bytes × Bytes) → String
+  | some (a, b) => s!"{a.length} {b.length}"
+  | none => "panic"
+
+def quoteStr : Except Fail (Bytes × Bytes) → String
+  | .ok (a, b) => s!"{a.length} {b.length}"
+  | .error (.err _) => "err"
+  | .error .panic => "panic"
+
+def cutLine (d : Bytes) : String :=
+  ",".intercalate <| (List.range (d.length + 1)).map fun k =>
+    match parse (d.take k) with
+    | .ok t _ => s!"ok:{t.length}"
+    | .err _ => "err"
+    | .panic => "panic"
+    | .outOfFuel => "out-of-fuel"
+
 def handle : Handler
+  | ["ttape", h] => (parseHex h).map fun d => tapeLine d false
+  | ["ttapeoff", h] => (parseHex h).map fun d => tapeLine d true
+  | ["tfaith", h, _] => (parseHex h).map fun d => tapeLine d false
+  | ["treuse", _, h] => (parseHex h).map fun d => tapeLine d false
+  | ["tlay", ha, hb, hc] => do
+      let a ← parseHex ha
+      let b ← parseHex hb
+      let c ← parseHex hc
+      let (ra, rb, rc) := (parse a, parse b, parse c)
+      let same (x y : Res) : Bool :=
+        match content x, content y with
+        | some p, some q => p == q
+        | none, none => (x.withBom false) == (y.withBom false)
+        | _, _ => false
+      let eq := same ra rc && same rb rc
+      pure s!"eq:{if eq then 1 else 0} {showRes none rc}"
+  | ["split", h] => (parseHex h).map fun d => pairStr (splitAtScalar d)
+  | ["splitfb", h] => (parseHex h).map fun d => pairStr (splitAtScalarFallback d)
+  | ["quote", h] => (parseHex h).map fun d => quoteStr (parseQuoteScalar d)
+  | ["quotefb", h] => (parseHex h).map fun d => quoteStr (parseQuoteScalarFallback d)
+  | ["wftext", h] => (parseHex h).map fun d =>
+      match parse d with
+      | .ok t _ => if wfTextTape d t then "wf:1" else "wf:0"
+      | .err _ => "err"
+      | .panic => "panic"
+      | .outOfFuel => "out-of-fuel"
+  | ["tcut", h] => (parseHex h).map cutLine
   | _ => none
 
 end Jomini.Driver.C01
